@@ -172,6 +172,17 @@ def gen_cases(tier, seed):
                 split = True      # several content arguments are joined with one blank
         cases.append({'kind': 'routes', 'out': kind, 'content': content, 'make': mk, 'kw': kw, 'split_args': split,
                       'subprocess': rng.random() < (0.12 if tier == 'quick' else 0.05)})
+    # always: SVG documents in a single-byte encoding with non-ASCII title / description - every route, incl. the data URI
+    # whose percent-encoded payload has to be these bytes
+    for j, (enc, title, desc) in enumerate([('iso-8859-1', 'Café Müller', 'ñandú'), ('cp1252', 'Grüße €', None), ('iso-8859-15', 'prix: 5 €', 'é'),
+                                            ('utf-8', 'Tïtle ☃', 'x > y'), ('iso-8859-1', 'a <b> & ü', 'ä"ö\'ü'), ('utf-16', 'Ünï', None)]):
+        kw = {'title': title, 'encoding': enc}
+        if desc:
+            kw['desc'] = desc
+        if j % 2:
+            kw['xmldecl'] = False
+        cases.append({'kind': 'routes', 'out': 'svg', 'content': gen.content_for_bits('alphanumeric', 9 + j), 'make': {'micro': False}, 'kw': kw,
+                      'split_args': False, 'subprocess': j == 0})
     # always: content that begins or ends with something a command line front end might want to interpret or tidy up
     for j, fix in enumerate(['@', '@segno', '%', '~', '*', '\\', '\ufeff', '\u200b', '\xa0', ' ', '\t', '-', '--', '+', '#', '"', "'"]):
         for where in ('prefix', 'suffix'):
